@@ -91,6 +91,34 @@ claim("C19", "proof",
       TIE + " argv → option set is pico_args (trusted). Don't-cares: -l with -e; default bounds with -m (data-dependent failure, C15).",
       "Lean 4 decision-table theorem (cases + grind) + exhaustive CLI correspondence", "§4 C19")
 
+claim("C05", "proof",
+      "Theorems: the one-line-at-a-time algorithm equals specLines (output and status) for every input other than the empty one or a lone EOL and every "
+      "plain forward-only bounds list resolvable on it (fwd_eq_spec, readAndCutLines_eq_spec); closed form of the output with and without --no-join; a "
+      "single trailing EOL never counts as an extra line; is_forward_only in closed form (positive + ascending with open left = 1). The buffered "
+      "algorithm is the general engine on the EOL-delimited input (C01). Direct oracle: implementation vs executed specLines; ascending requests vs an "
+      "equivalent request that forces buffering.",
+      TIE, "Lean 4 refinement theorem (induction over the lines with an invariant on the pending bound) + two-algorithm oracle", "§4 C05")
+claim("C12", "proof",
+      "In the model every Rust panic site is a checked operation yielding Status.panic; theorems show it unreachable (parser: for every string; engines: see "
+      "evidence for the list proved so far) and that range expansion is bounded by the record length, not the index value. The implementation oracle "
+      "carries what the model abstracts: ALL bounds strings ≤ L symbols × every mode in-process under catch_unwind + watchdog, and random adversarial "
+      "argv × stdin on the debug (overflow checks) and release (panic=abort) binaries under a 10 s timeout and RLIMIT_AS 1 GiB.",
+      TIE + " Panic/hang sites inside third-party crates (regex, serde_json, bstr) are reachable only by the implementation oracle.",
+      "Lean 4 theorems (unreachability of modelled panic sites) + adversarial CLI / in-process exploration", "§4 C12")
+claim("C14", "proof",
+      "Theorems: under a writer failing after k bytes the delivered bytes are a prefix of the fault-free output, a cut never ends in a successful exit, a "
+      "successful exit delivered everything, a fault never produces a panic; a propagated read error is never a success and leaves written bytes untouched "
+      "(read-side prefix/monotonicity theorems: see evidence). Fault enumeration: main's dispatch with Read/Write doubles failing at EVERY byte position, "
+      "model = implementation on each; real binary with RLIMIT_FSIZE=k (byte exact), /dev/full, closed pipe, stdin from a directory.",
+      TIE + " Kernel-side pipe/EPIPE timing and stderr delivery are observed at the CLI, not modelled.",
+      "Lean 4 theorems over a fault model (deliver / dispatchReadFault) + exhaustive fault-position enumeration", "§4 C14")
+claim("C18", "proof",
+      "Theorem parse_eq_spec: for EVERY string, UserBoundsList::from_str's model accepts exactly what an independent grammar (maximal-munch lexer + token "
+      "parser + declarative bound syntax) accepts and yields the same list; plus: never panics, accepted bounds are non-zero i32 with same-sign ranges "
+      "non-decreasing, the four chained replace calls equal token-wise unescaping, no two adjacent fillers (73 theorems). Direct oracle: implementation vs "
+      "the executed grammar on every string ≤ L symbols + random; rendering on probe records vs the executed specification.",
+      TIE, "Lean 4 language-recognition theorem (scanner with look-ahead = lexer+parser, simulation proof) + bounded-exhaustive correspondence", "§4 C18")
+
 NOT_YET = "check under construction in this session (model, harness and driver exist; the property's check is not registered yet)"
 
 
